@@ -14,6 +14,8 @@ from vlib import circ, circgen, forkexec, symeval, symnet
 from checks import mutators
 from checks.common import REPLAY_PRELUDE
 
+HASH_SEEDS = {"quick": (1,), "thorough": (1, 2, 3)}  # also run (quick size) under these PYTHONHASHSEEDs
+HASH_ONLY = "concrete"  # the symbolic step does not depend on the hash seed
 LEVEL = "exploration"
 TECHNIQUE = "bounded exploration: one mutator step (and short sequences) from directly constructed well-formed states; independent invariant check; z3 for copy equivalence"
 USES_STUBS = True
